@@ -154,4 +154,17 @@ TEXTS.update({
         "technique": "Lean 4 proof (decision-logic theorems on the controller model) + fault enumeration on the real controller under testing/synctest",
     },
 })
+TEXTS["_engines"].append({"name": "lister", "path": "harness/conc/lister_test.go", "serves_properties": ["C13"],
+    "kind_free_text": "the real lister+ticker on a (period, latency, consumption delay) grid in virtual time; observed schedule replayed through the Lean ticker model (kdriver lister)"})
+TEXTS.update({
+    "C13": {
+        "text": "Lean theorems on the ticker/lister timing machine for every period, fuzz window, list latency (slower than the period included), consumption delay and "
+                "schedule: the ticker goroutine never blocks; a list starts only when none is running or pending; every list starts at least period-fuzz after the previous "
+                "result was consumed; while waiting, once period+fuzz has passed a step towards the next list is always enabled; a pending result is always consumable. The code "
+                "before the repair provably reaches the stuck state (finding D4, fixed). Tie: time-stamped runs of the real lister on a ratio grid replayed through the model.",
+        "design_ref": "DESIGN.md §7 C13",
+        "note": "Trusted: Lean kernel; the Tick model incl. its abstraction of Go timers; virtual time. 'Shuts down promptly' is exhibited by the engine (done 50ms of virtual time after the stop).",
+        "technique": "Lean 4 proof (inductive invariant of a timed transition system) + replay of observed schedules through the executable model under testing/synctest",
+    },
+})
 NOT_BUILT = {}
